@@ -479,6 +479,8 @@ def rule_self_exclusion(ctx, rule='R13.11'):
 
 
 def run(ctx):
+    from . import edges as _edges
+    _edges.rule_drift_magnitudes(ctx, 'R13.12')     # search radii grow with |dt|, also for backward integrations
     from . import edges
     edges.rule_threshold_siblings(ctx, 'R01.13')     # one quantity, one literal, one line: particle 0 is a leaf occupant like any other
     edges.rule_time_direction(ctx, 'R08.12')         # time may be negative and may run backwards: mergers are decided the same way in both directions of time
